@@ -5,6 +5,7 @@ import (
 	"errors"
 	"fmt"
 	"io/fs"
+	"math"
 	"os"
 	"regexp/syntax"
 	"runtime/debug"
@@ -13,6 +14,7 @@ import (
 	"time"
 
 	"github.com/0xrawsec/sod"
+	"github.com/0xrawsec/sod/verifshim/vfs"
 	"github.com/google/uuid"
 )
 
@@ -62,14 +64,22 @@ type Op struct {
 	Cfg    *Cfg       `json:"cfg,omitempty"`
 	What   string     `json:"what,omitempty"`
 	N      int        `json:"n,omitempty"`
+	// fault engines
+	Bad     string   `json:"bad,omitempty"`   // make the object unserialisable: "nan" | "inf" | "chan"
+	Crash   bool     `json:"crash,omitempty"` // enumerate the crash points of this call
+	Fault   int      `json:"fault,omitempty"` // fail the Fault-th file-system call of this call
+	Fsub    string   `json:"fsub,omitempty"`  // "" | "write" | "after"
+	Damage  *Damage  `json:"damage,omitempty"`
+	Corrupt *Corrupt `json:"corrupt,omitempty"`
 }
 
 type Test struct {
-	ID     string   `json:"id"`
-	Cfg    Cfg      `json:"cfg"`
-	Ops    []Op     `json:"ops"`
-	Fields []string `json:"fields,omitempty"` // fields the sweep queries (default: those set in ops)
-	NoObs  bool     `json:"noobs,omitempty"`  // no automatic final sweep
+	ID       string   `json:"id"`
+	Cfg      Cfg      `json:"cfg"`
+	Ops      []Op     `json:"ops"`
+	Fields   []string `json:"fields,omitempty"`    // fields the sweep queries (default: those set in ops)
+	NoObs    bool     `json:"noobs,omitempty"`     // no automatic final sweep
+	CrashAll bool     `json:"crash_all,omitempty"` // enumerate the crash points of every mutating call
 }
 
 // ---------------------------------------------------------------- error classes
@@ -125,6 +135,10 @@ func classify(err error) string {
 	var jt *json.UnmarshalTypeError
 	var jm *json.UnsupportedValueError
 	var jn *json.MarshalerError
+	var ju *json.UnsupportedTypeError
+	if errors.As(err, &ju) {
+		return "unserialisable"
+	}
 	if errors.As(err, &je) || errors.As(err, &jt) {
 		return "json"
 	}
@@ -156,8 +170,14 @@ type Runner struct {
 	lastMsg string
 	xqs     [][]Cmp
 	lastArg map[int]sod.Object
-	recs    []Vals
-	recIdx  map[string]int
+	// fault engines
+	pre    *dirSnap
+	fsops  []*vfs.Op
+	fired  bool
+	stop   bool
+	opi    int
+	recs   []Vals
+	recIdx map[string]int
 }
 
 type ev map[string]interface{}
@@ -343,13 +363,17 @@ func RunTest(t *Test, out *json.Encoder, workdir string) {
 	for i := range t.Ops {
 		op := &t.Ops[i]
 		lastObs = op.Op == "obs"
+		r.opi = i
+		if r.stop {
+			break
+		}
 		if r.guard(op.Op, func() { r.step(op) }) {
 			// a foreground panic: the handle is in an unknown state; stop the test here
 			r.emit(ev{"ev": "end"})
 			return
 		}
 	}
-	if !lastObs && !t.NoObs {
+	if !lastObs && !t.NoObs && !r.stop {
 		r.guard("obs", func() { r.obs(false, false) })
 	}
 	r.guard("close", func() { r.db.Close() })
@@ -380,7 +404,63 @@ func (r *Runner) header(createClass string) ev {
 		"inv": ev{"V": []int{idxInt(uniV, invV)}, "W": []int{caseLower.encode(invW)}}}
 }
 
+// call runs one API call with the fault engines armed only for its duration.
+func (r *Runner) call(op *Op, f func()) {
+	crash := op.Crash || r.t.CrashAll
+	r.fired, r.fsops, r.pre = false, nil, nil
+	vfs.Reset()
+	if crash {
+		r.pre = snapshotDir(r.root)
+		vfs.Record(true)
+	}
+	if op.Fault > 0 {
+		vfs.SetFault(op.Fault, op.Fsub)
+	}
+	defer func() {
+		if op.Fault > 0 {
+			r.fired = vfs.Faulted()
+		}
+		if crash {
+			vfs.Record(false)
+			r.fsops = vfs.Drain()
+		}
+		vfs.Reset()
+	}()
+	f()
+}
+
+// after runs the fault engines on what the call recorded.
+func (r *Runner) after(op *Op, class string) {
+	if r.pre != nil {
+		r.crashSweep(r.opi, r.pre, r.fsops)
+		r.pre, r.fsops = nil, nil
+	}
+	if r.fired {
+		// a storage fault was injected into this call: observe the live handle, then recover with a fresh one
+		r.recs, r.recIdx = []Vals{}, map[string]int{}
+		e := ev{"ev": "fault", "k": op.Fault, "sub": op.Fsub, "c": class}
+		e["obs0"] = r.guardObs()
+		r.guardClass(func() error { return nil })
+		rec := r.recovery(r.root)
+		for k, v := range rec {
+			e[k] = v
+		}
+		e["recs"] = r.recs
+		r.emit(e)
+		r.stop = true
+	}
+}
+
 func (r *Runner) step(op *Op) {
+	switch op.Op {
+	case "damage":
+		r.damage(op)
+		return
+	case "corrupt":
+		r.corrupt(op)
+		r.stop = true
+		return
+	}
 	switch op.Op {
 	case "put":
 		r.put(op)
@@ -389,8 +469,11 @@ func (r *Runner) step(op *Op) {
 	case "del":
 		r.del(op)
 	case "delall":
-		c := classify(r.db.DeleteAll(r.proto()))
-		r.emit(ev{"ev": "delall", "c": c})
+		var err error
+		r.call(op, func() { err = r.db.DeleteAll(r.proto()) })
+		c := classify(err)
+		r.emit(ev{"ev": "delall", "c": c, "fired": r.fired})
+		r.after(op, c)
 	case "delsearch":
 		r.delsearch(op)
 	case "reopen":
@@ -418,7 +501,16 @@ func (r *Runner) put(op *Op) {
 	o, in := r.object(op.Slot, op.O)
 	before := o.UUID()
 	rec := asRec(o)
-	err := r.db.InsertOrUpdate(o)
+	switch op.Bad {
+	case "nan":
+		rec.F = math.NaN()
+	case "inf":
+		rec.F = math.Inf(-1)
+	case "chan":
+		rec.I = make(chan int)
+	}
+	var err error
+	r.call(op, func() { err = r.db.InsertOrUpdate(o) })
 	c := classify(err)
 	r.lastArg[op.Slot] = o
 	isNew, kept, fresh := r.uuidFacts(op.Slot, o, before)
@@ -427,16 +519,19 @@ func (r *Runner) put(op *Op) {
 	if c != "ok" {
 		e["msg"] = err.Error()
 	}
-	if c == "ok" {
+	if c == "ok" || (r.fired && o.UUID() != "") {
+		// (under an injected fault the identifier stays attached to the slot: the write may be on disk)
 		r.bind(op.Slot, o.UUID())
 	} else if isNew && o.UUID() != "" {
 		r.seen[o.UUID()] = true
 		r.ghost = append(r.ghost, o.UUID())
 	}
+	e["fired"] = r.fired
 	r.emit(e)
-	if c != "ok" {
+	if c != "ok" && !r.fired {
 		r.obs(true, false)
 	}
+	r.after(op, c)
 }
 
 func (r *Runner) many(op *Op) {
@@ -481,21 +576,23 @@ func (r *Runner) many(op *Op) {
 	}
 	var n int
 	var err error
-	if op.Csize > 0 {
-		ch := make(chan sod.Object)
-		go func() {
-			defer close(ch)
-			for _, o := range objs {
-				ch <- o
+	r.call(op, func() {
+		if op.Csize > 0 {
+			ch := make(chan sod.Object)
+			go func() {
+				defer close(ch)
+				for _, o := range objs {
+					ch <- o
+				}
+			}()
+			n, err = r.db.InsertOrUpdateBulk(ch, op.Csize)
+			// drain in case of early return
+			for range ch {
 			}
-		}()
-		n, err = r.db.InsertOrUpdateBulk(ch, op.Csize)
-		// drain in case of early return
-		for range ch {
+		} else {
+			n, err = r.db.InsertOrUpdateMany(objs...)
 		}
-	} else {
-		n, err = r.db.InsertOrUpdateMany(objs...)
-	}
+	})
 	c := classify(err)
 	// which entries count as stored: all (ok), or the first n (bulk stops at a chunk boundary)
 	for i, o := range objs {
@@ -511,7 +608,7 @@ func (r *Runner) many(op *Op) {
 		if op.Batch[i].Other {
 			continue
 		}
-		if i < n {
+		if i < n || (r.fired && o.UUID() != "") {
 			r.bind(op.Batch[i].Slot, o.UUID())
 		} else if befores[i] == "" && o.UUID() != "" {
 			if _, bound := r.rev[o.UUID()]; !bound {
@@ -520,14 +617,15 @@ func (r *Runner) many(op *Op) {
 			}
 		}
 	}
-	e := ev{"ev": "many", "batch": ents, "csize": op.Csize, "c": c, "n": n, "hooks": r.takeHooks(ptrIdx)}
+	e := ev{"ev": "many", "batch": ents, "csize": op.Csize, "c": c, "n": n, "hooks": r.takeHooks(ptrIdx), "fired": r.fired}
 	if err != nil {
 		e["msg"] = err.Error()
 	}
 	r.emit(e)
-	if c != "ok" {
+	if c != "ok" && !r.fired {
 		r.obs(true, false)
 	}
+	r.after(op, c)
 }
 
 func (r *Runner) ident(slot int) sod.Object {
@@ -542,8 +640,11 @@ func (r *Runner) ident(slot int) sod.Object {
 
 func (r *Runner) del(op *Op) {
 	o := r.ident(op.Slot)
-	c := classify(r.db.Delete(o))
-	r.emit(ev{"ev": "del", "slot": op.Slot, "c": c})
+	var err error
+	r.call(op, func() { err = r.db.Delete(o) })
+	c := classify(err)
+	r.emit(ev{"ev": "del", "slot": op.Slot, "c": c, "fired": r.fired})
+	r.after(op, c)
 }
 
 func (r *Runner) reopen(op *Op) {
@@ -655,8 +756,11 @@ func qjson(q []Cmp) []interface{} {
 func (r *Runner) delsearch(op *Op) {
 	s := r.runQuery(op.Q)
 	n := s.Len()
-	c := classify(s.Delete())
-	r.emit(ev{"ev": "delsearch", "q": qjson(op.Q), "c": c, "len": n})
+	var err error
+	r.call(op, func() { err = s.Delete() })
+	c := classify(err)
+	r.emit(ev{"ev": "delsearch", "q": qjson(op.Q), "c": c, "len": n, "fired": r.fired})
+	r.after(op, c)
 }
 
 func (r *Runner) eval(op *Op) {
